@@ -817,6 +817,16 @@ Section Obs.
     end.
   Definition model_runs (c : cfg) (rs : list orun) (d : db (ccat cat)) : db (ccat cat) * bool := model_runs_at c rs [] d.
 
+  (* round 8: any number of process starts, EACH through its own host (a load-balanced address, several
+     configured nodes): the database persists, the log is the concatenation of the starts' call logs *)
+  Fixpoint multi_run_at (c : cfg) (runs : list (nat * list outcome)) (d : db (ccat cat)) : db (ccat cat) * list event :=
+    match runs with
+    | [] => (d, [])
+    | jo :: rest =>
+      let '(m, d1) := start_at c (fst jo) (snd jo) d in
+      let '(d', l) := multi_run_at c rest d1 in (d', r_log m ++ l)
+    end.
+
   Definition vers_list {A} (d : db A) : list (N * N) :=
     map (fun k => (stream_k k, N.of_nat (d_vers d k))) (filter (fun k => negb (d_vers d k =? 0)) all_streams).
   Definition vers_eqb (a b : list (N * N)) : bool :=
@@ -833,8 +843,13 @@ Section Obs.
   (* the property's oracle on the OBSERVED behaviour:
      1 never ahead / file order: omon_ok on the concatenated logs of all runs;
      2 convergence: the first clean run returns nil;
-     3 ... and the database (every host) ends as an uninterrupted run's;
+     3 ... and the database (every host) ends as an uninterrupted run's, made through one of the hosts the starts used;
      4 no-op: the second clean run executes no script statement and records no version. *)
+  (* round 8: "an uninterrupted run" may be made through any host some start of the history was connected to (the
+     uninterrupted run through host j ends in expected_final with hosts 0 and j exchanged: theorem
+     rerun_converges_scripts_through_one_host); histories whose starts all go through host 0 are judged as before *)
+  Definition conn_hosts (c : case) : list nat :=
+    c_conn c ++ (if List.length (c_conn c) <? List.length (c_runs c) then [0] else []).
   Definition spec_code (c : case) : N :=
     let logs := flat_map or_log (c_runs c) in
     if negb (omon_ok logs) then 1%N else
@@ -843,7 +858,8 @@ Section Obs.
     | last :: conv :: _ =>
       let e := expected_final (c_cfg c) (c_nhosts c) in
       if negb (or_ok conv && or_ok last) then 2%N
-      else if negb (list_eqb cat_eqb (d_cat e) (c_hosts c) && vers_eqb (vers_list e) (c_vers c)) then 3%N
+      else if negb (existsb (fun j => list_eqb cat_eqb (swap_hosts j (d_cat e)) (c_hosts c)) (conn_hosts c)
+                    && vers_eqb (vers_list e) (c_vers c)) then 3%N
       else if existsb o_is_script (or_log last) then 4%N
       else 0%N
     | _ => 0%N
